@@ -821,6 +821,16 @@ def corr_link(chk, cases, cfg, real_draws):
         chk.case("link", key=[a["params"], a.get("body"), a["mergeBody"], a["ctx"]], nontrivial=construct == "ok",
                  sample={"definition": definition, "construct": construct})
         chk.feature(f"link:construct={construct}")
+        if construct == "ok":
+            # replay: a parameter expression that is malformed by the grammar (unbalanced braces, a brace inside an
+            # embedded expression, …) makes the link a schema error; it is never accepted to fail silently at run time
+            for pname, pexpr in definition["parameters"].items():
+                why = conservative_malformed(pexpr) if isinstance(pexpr, str) else None
+                if why is not None:
+                    chk.violation(f"C10:OpenApiLink:malformed-parameter-expression-accepted:{why}",
+                                  f"link parameter {pname!r} = {pexpr!r} is malformed ({why}), yet the link is constructed",
+                                  rep)
+                    break
         if construct != m["construct"]:
             chk.disagreement("link:construct", rep, m["construct"], construct)
             continue
